@@ -153,6 +153,8 @@ pub struct DiskState {
     /// Panics with "HORIZON" when `calls` reaches this.
     pub horizon: u64,
     pub num_blocks: u32,
+    /// how many injected faults have fired
+    pub fired: u64,
 }
 
 /// The block device handed to the crate. Cloning shares the state.
@@ -175,6 +177,7 @@ impl SimDisk {
             calls: 0,
             horizon: u64::MAX,
             num_blocks: u32::MAX,
+            fired: 0,
         })))
     }
     pub fn image(&self) -> Image {
@@ -217,6 +220,7 @@ impl BlockDevice for SimDisk {
                 });
             }
             if fail {
+                st.fired += 1;
                 b.contents = [0xA5; 512];
                 return Err(DevErr::Injected);
             }
@@ -245,6 +249,7 @@ impl BlockDevice for SimDisk {
                 });
             }
             if fail {
+                st.fired += 1;
                 return Err(DevErr::Injected);
             }
             st.img.put(idx, &b.contents);
